@@ -11,6 +11,7 @@ import JubakoModel.Model.ContentSpec
 import JubakoModel.Lemmas.Creator
 import JubakoModel.Lemmas.Codec
 import JubakoModel.Lemmas.ContentFile
+import JubakoModel.Lemmas.Funcs
 
 namespace Jubako
 
@@ -89,5 +90,22 @@ example :
     r.1.Perm r.1.reverse ∧ r.1.reverse ≠ r.1 ∧
     resolve r.1.reverse (r.2.getD 1 (0,0)) = some ([3], true) := by
   decide
+
+/-! ### Tie to the source: split rule, width rule and content-info packing are the source's bodies -/
+
+/-- **The creator model's split rule, the tail-width rule and the content-info packing are the bodies
+    of `ClusterCreator::is_full`, `needed_bytes` and `ContentInfo::{serialize, parse}` as translated
+    from the Rust source on every run** (Generated/Funcs.lean). -/
+theorem c01_rules_are_source_rules :
+    (∀ (c : Cluster) (size : Nat),
+      c.isFull size = Generated.clusterIsFull c.blobs.length c.compressed c.dataSize size) ∧
+    (∀ v, Generated.neededBytes v = some (neededBytes v)) ∧
+    (∀ cluster blob, contentInfoEncode cluster blob = leBytes (Generated.contentInfoPack cluster blob % 2 ^ 32) 4) ∧
+    (∀ bs, contentInfoDecode bs = Generated.contentInfoUnpack (leNat bs)) :=
+  ⟨gen_clusterIsFull, gen_neededBytes, gen_contentInfoPack, gen_contentInfoUnpack⟩
+
+/-- non-vacuity: the translated split rule closes a compressed cluster at 4 MiB and any cluster at 4095 blobs -/
+example : Generated.clusterIsFull 1 true 4194304 1 = true ∧ Generated.clusterIsFull 1 false 4194304 1 = false ∧
+          Generated.clusterIsFull 4095 false 0 0 = true ∧ Generated.clusterIsFull 0 true 0 5000000 = false := by decide
 
 end Jubako
